@@ -15,10 +15,10 @@ from .a_graph import GraphSim
 from .b_builders import BuilderSim, Discard
 
 
-def produce(ctx):
+def produce(ctx, weights=(4, 3, 3), force_in_range=False):
     """Returns (hugr, in_range, label) or None (discard). Draws the workload kind and runs it."""
     ch = ctx.ch
-    kind = ch.weighted([4, 3, 3], "workload")
+    kind = ch.weighted(list(weights), "workload")
     if kind == 0:  # (i) engine-B product
         sim = _builder(ctx)
         if sim is None:
@@ -26,7 +26,7 @@ def produce(ctx):
         ctx.profile.update(workload="builder")
         return sim.hugr, True, "builder"
     if kind == 1:  # (ii) engine-A history
-        in_range = ch.coin(1, 2, "p-inrange")
+        in_range = ch.coin(1, 2, "p-inrange") or force_in_range
         sim = GraphSim(ctx, in_range=in_range, allow_delete=ch.coin(3, 4, "p-delete"), allow_insert=ch.coin(1, 2, "p-insert"),
                        use_meta=ch.coin(3, 4, "p-meta"), max_nodes=6 + ch.draw(25, "p-maxnodes"), order_only_valid=True)
         _mutate(ctx, sim, 3 + ch.draw(40, "nsteps"))
